@@ -31,7 +31,11 @@ def build(case):
     d, c, r = case["d"], case["c"], case["r"]
     sign = case.get("sign", "pos")
     wrap = case.get("wrap", 0)  # 0 = not wrapped, p>0 = p values per physical line
-    curves = [("C%d" % k, "u%d" % k, "", "curve %d" % k) for k in range(d)]
+    names = ["C%d" % k for k in range(d)]
+    if case.get("names") == "numeric":
+        # numbered channels whose name is the text of ANOTHER position: "1", "2", ..., "0"
+        names = [str((k + 1) % max(d, 1)) for k in range(d)]
+    curves = [(names[k], "u%d" % k, "", "curve %d" % k) for k in range(d)]
     rows = []
     for i in range(r):
         toks = [cell(i, j, sign) for j in range(c)]
@@ -49,6 +53,11 @@ def build(case):
                                nl=case.get("nl", "\n"), final_nl=case.get("final_nl", True))
     a = spec["sections"][-1]
     a["ncols"] = c
+    if case.get("version_section") == "no-wrap-item":
+        v = spec["sections"][0]
+        v["lines"] = [ln for ln in v["lines"] if ln.get("m") != "WRAP"]
+    elif case.get("version_section") == "absent":
+        spec["sections"] = spec["sections"][1:]
     if dlm in ("COMMA", "TAB"):
         for ln in a["lines"]:
             ln["seps"] = ["," if dlm == "COMMA" else "\t"] * max(0, len(ln["toks"]) - 1)
@@ -66,6 +75,10 @@ def oracle(case):
     spec = build(case)
     out.sample = dict(case=case, text=spec_summary(spec, 400))
     out.cls("dlm-" + str(case.get("dlm") or "SPACE"))
+    if case.get("version_section"):
+        out.cls("version-section-" + case["version_section"])
+    if case.get("names"):
+        out.cls("names-" + case["names"])
     out.cls("wrapped" if wrap else "unwrapped", "engine-" + case["engine"],
             "d<c" if d < c else "d>c" if d > c else "d=c", "sign-" + case.get("sign", "pos"))
     if case.get("noise"):
@@ -102,6 +115,12 @@ def grid(tier):
                         if r <= 3 and c <= 5 and d <= 5:
                             for dlm in ("COMMA", "TAB"):
                                 yield dict(d=d, c=c, r=r, engine=engine, sign=sign, dlm=dlm)
+                        if sign == "pos" and r <= 4:
+                            # no WRAP line in ~Version, or no ~Version section at all: the file is not wrapped
+                            yield dict(d=d, c=c, r=r, engine=engine, sign=sign, version_section="no-wrap-item")
+                            yield dict(d=d, c=c, r=r, engine=engine, sign=sign, version_section="absent")
+                            if d >= 2:
+                                yield dict(d=d, c=c, r=r, engine=engine, sign=sign, names="numeric")
 
 
 def wrapped_grid(tier):
@@ -133,6 +152,9 @@ def big_cases(draw):
     else:
         case["d"] = draw(st.one_of(st.just(c), st.integers(0, 45)))
         case["dlm"] = draw(st.sampled_from([None, None, "COMMA", "TAB"]))
+        if case["dlm"] is None:
+            case["version_section"] = draw(st.sampled_from([None, None, None, "no-wrap-item", "absent"]))
+        case["names"] = draw(st.sampled_from([None, None, None, "numeric"]))
     nlines = r if not wrapped else r * (c // case["wrap"] + 2)
     case["noise"] = draw(st.lists(st.tuples(st.integers(0, nlines), st.sampled_from("bc")), max_size=3))
     return case
